@@ -23,3 +23,25 @@ def gauss_hermite(nfields, npts):
     nodes = np.array(list(itertools.product(x, repeat=nfields)))
     weights = np.array([np.prod(c) for c in itertools.product(w, repeat=nfields)])
     return nodes, weights
+
+
+def rdm1(cfgs, vec, norb):
+    """<psi|a+_p a_q|psi>/<psi|psi> per spin for psi = sum_c vec[c] |cfgs[c]> (cfgs: (alpha tuple, beta tuple), sorted tuples);
+    brute force, for cross-checking special instances the integer oracle cannot represent"""
+    import numpy as np
+    idx = {c: i for i, c in enumerate(cfgs)}
+    out = np.zeros((2, norb, norb), dtype=complex)
+    nrm = np.vdot(vec, vec)
+    for i, (a, b) in enumerate(cfgs):
+        for sp, occ in ((0, a), (1, b)):
+            for q in occ:
+                rest = [x for x in occ if x != q]
+                sq = (-1) ** occ.index(q)
+                for p in range(norb):
+                    if p in rest:
+                        continue
+                    new = tuple(sorted(rest + [p]))
+                    sp_ = (-1) ** new.index(p)
+                    c2 = (new, b) if sp == 0 else (a, new)
+                    out[sp, p, q] += np.conj(vec[idx[c2]]) * sq * sp_ * vec[i]
+    return out / nrm
